@@ -169,6 +169,16 @@ def check_queries(ctx, srcs, what: str, expect_index_error=None, pack_check=None
     # (theorem simpCk_refines_simp; re-checked here on the run's inputs); where one of its guards fires the input is
     # outside the domain of the soundness theorem (e.g. a lambda parameter used as a function) and is covered by the
     # correspondence and the oracles only - counted per guard in the evidence
+    # hypothesis of the totality theorem (simplify_total): evaluated on every generated query; where it holds neither
+    # the model nor the implementation may fail with anything but the dedicated index error
+    res_wf = ctx.driver.batch([("wfq", [a[1]]) for _, a in reqs])
+    for (src, _, got, _), r0, rw in zip(keep, res, res_wf):
+        if rw == ("ok", "true") or tuple(rw) == ("ok", "true"):
+            ctx.dist["wfq: hypothesis of simplify_total holds"] += 1
+            if r0[0] == "err" and r0[1] not in ("indexError", "FuncADLIndexError") and not r0[1].startswith("fuel"):
+                ctx.disagree("simplify_total", {"src": src}, "no internal error on a well-formed query (theorem)", (r0[0], r0[1][:200]))
+        else:
+            ctx.dist["wfq: outside (operator name as a value, operator call of another shape)"] += 1
     res_ck = ctx.driver.batch([("simpCk", a) for _, a in reqs])
     for (src, _, _, _), r0, r1 in zip(keep, res, res_ck):
         if r1[0] == "err" and "side-condition:" in r1[1]:
